@@ -7,7 +7,7 @@ def run(tier, seed, replay=None):
     prayerday_mc(rep, "C12", ["StagedIsPure", "ImsaakFollowsExtremeFajr", "ImsaakInterval", "OffsetFrame", "OffsetShifts", "IntervalKept"],
                  roundings="{0}", fajr_offsets="{0, 90000}")
     # vacuity: the pre-fix get_imsaak (D7) must violate ImsaakFollowsExtremeFajr in the same model
-    cfg = write_cfg("C12legacy.cfg", {"LegacyUnwrap": "FALSE", "LegacyImsaak": "TRUE", "LegacyImsaakFlag": "FALSE", "LegacyLateInt": "FALSE", "Roundings": "{0}", "FajrOffsets": "{0}", "NegOffsets": "FALSE"},
+    cfg = write_cfg("C12legacy.cfg", {"LegacyUnwrap": "FALSE", "LegacyImsaak": "TRUE", "LegacyImsaakFlag": "FALSE", "LegacyLateInt": "FALSE", "LegacyIntFlag": "FALSE", "Roundings": "{0}", "FajrOffsets": "{0}", "NegOffsets": "FALSE"},
                     ["ImsaakFollowsExtremeFajr"])
     leg = tlc_must_fail("PrayerDay", cfg, expect="ImsaakFollowsExtremeFajr", workers=6, heap="6g")
     rep.add_tlc(leg)
